@@ -647,5 +647,37 @@ def storage_no_cache(repo: Repo, rep):
             if tgt and tgt in m.globals_assigned and tgt not in f.params and not any(isinstance(a, ast.Assign) and any(isinstance(tt, ast.Name) and tt.id == tgt for tt in a.targets) for a in body_nodes(f.node)):
                 bad += 1
                 rep.violation("R-STORAGE-NO-CACHE", f, x, f"{f.qualname} mutates the module-level `{tgt}`: what it remembers about the storage survives prune_new_files() / remove() and the next session of the same process", construct=f"{f.qualname}:{tgt}")
+    # ... nor in the storage object itself: the files are the only state of DiscStorage.  A memo keyed by a (possibly shortened)
+    # name answers for a name that has meanwhile become ambiguous or has lost its file - lookups are decided by the directory
+    ds = None
+    for k in repo.all_classes():
+        if k.name == "DiscStorage" and k.module is m:
+            ds = k
+    if ds is not None:
+        for f in ds.methods.values():
+            selfn = f.params[0] if f.params else None
+            for x in body_nodes(f.node):
+                fld = None
+                if isinstance(x, (ast.Assign, ast.AnnAssign, ast.AugAssign)):
+                    tg = x.targets if isinstance(x, ast.Assign) else [x.target]
+                    for t in tg:
+                        if isinstance(t, ast.Subscript) and isinstance(t.value, ast.Attribute) and isinstance(t.value.value, ast.Name) and t.value.value.id == selfn:
+                            fld = t.value.attr
+                        if isinstance(t, ast.Attribute) and isinstance(t.value, ast.Name) and t.value.id == selfn and isinstance(getattr(x, "value", None), (ast.Dict, ast.Set, ast.List, ast.DictComp, ast.SetComp, ast.ListComp)):
+                            fld = t.attr
+                        if isinstance(t, ast.Attribute) and isinstance(t.value, ast.Name) and t.value.id == selfn and isinstance(getattr(x, "value", None), ast.Call) and norm(x.value.func) in ("dict", "set", "list", "defaultdict", "OrderedDict"):
+                            fld = t.attr
+                if isinstance(x, ast.Call) and isinstance(x.func, ast.Attribute) and x.func.attr in ("add", "append", "update", "setdefault", "extend") and isinstance(x.func.value, ast.Attribute) and isinstance(x.func.value.value, ast.Name) and x.func.value.value.id == selfn:
+                    fld = x.func.value.attr
+                if fld:
+                    bad += 1
+                    rep.violation(
+                        "R-STORAGE-NO-CACHE",
+                        f,
+                        x,
+                        f"DiscStorage.{f.name} keeps a container in `self.{fld}`: what the storage object remembers is not updated by persist() / remove() / prune_new_files() or by a second name for the same data - "
+                        "a lookup that should fail (ambiguous shortened hash, deleted file) is answered from the memo",
+                        construct=f"DiscStorage.{f.name}:self.{fld}",
+                    )
     if not bad:
-        rep.ok("R-STORAGE-NO-CACHE", repo.func("_external.py::outsource"), None, f"{n} functions, no module-level container is mutated", site="src/inline_snapshot/_external.py: module-level state")
+        rep.ok("R-STORAGE-NO-CACHE", repo.func("_external.py::outsource"), None, f"{n} functions, no module-level container is mutated, DiscStorage keeps no container", site="src/inline_snapshot/_external.py: module-level state")
